@@ -84,6 +84,8 @@ def run(ctx):
             b2, _ = vlib.tlc_validate(ctx.scratch, "ConnTrace", "ConnTrace.cfg", l2, timeout=300)
             if b2:
                 confirmed.append((i, b2[0][1]))
+            else:
+                ctx.log("transient (not confirmed alone): %s via=%s sched=%s note=%s" % (w, lines[i]["via"], lines[i]["sched"], lines[i]["note"]))
         ctx.log("re-run in isolation: %d of %d rejections confirmed" % (len(confirmed), len(bad[:15])))
         bad = confirmed
     v = vlib.Verdict("C14")
